@@ -668,6 +668,7 @@ type Gen struct {
 	panicking bool
 	recovered bool
 	sliceTerms []string // every slice-sorted term seen so far (for freshness of new backing arrays)
+	staticDead map[*ssa.BasicBlock]bool
 	arrBase  map[*ssa.Alloc]Term
 }
 
@@ -2228,7 +2229,7 @@ func (g *Gen) applyPureIdx(callee *ssa.Function, ctr *Contract, args []Term, st 
 // ---------- ensures at return ----------
 
 func (g *Gen) checkEnsures(ret *ssa.Return, st *State) {
-	if g.ctr != nil {
+	if g.ctr != nil && !g.staticDead[g.curBlock] {
 		cp := ret.Pos()
 		if !cp.IsValid() {
 			cp = g.curPos
